@@ -47,3 +47,50 @@ contract(
     modifies=["fresh"],
     properties=["C19"],
 )
+
+
+# ---------------------------------------------------------------------------------------------------------------
+# filter_sphinx_inventories (C19): what is yielded.  W(name, pattern) is match_with_wildcard's postcondition.
+@spec
+def W(name, pattern):
+    return pattern is None or FullMatches(Rx(pattern), 48, name)
+
+
+@spec
+def Selected(m, inventories, invs, domains, otypes, targets):
+    """m reports an entry that exists, under the object type spelled `domain:otype` with the FIRST colon as the separator,
+    and all four filters accept it."""
+    return (W(m.inv, invs) and W(m.domain, domains) and W(m.otype, otypes) and W(m.name, targets)
+            and m.inv in inventories
+            and ":" not in m.domain
+            and (m.domain + ":" + m.otype) in inventories[m.inv]
+            and m.name in inventories[m.inv][m.domain + ":" + m.otype]
+            and m.project == inventories[m.inv][m.domain + ":" + m.otype][m.name][0]
+            and m.version == inventories[m.inv][m.domain + ":" + m.otype][m.name][1]
+            and m.loc == inventories[m.inv][m.domain + ":" + m.otype][m.name][2]
+            and m.base_url is None)
+
+
+SEL = "forall(0, len({ys}), lambda j: Selected({ys}[j], inventories, invs, domains, otypes, targets))"
+contract(
+    f"{M}:filter_sphinx_inventories",
+    requires=[],
+    ensures=[SEL.format(ys="result")],
+    raises={},
+    modifies=["fresh"],
+    types={"inventories": "dict[str, dict[str, dict[str, tuple[str, str, str, str]]]]"},
+    returns="list[InvMatch]",
+    opaque=["Rx"],  # the regex text of a pattern is whatever match_with_wildcard's contract says; its recursion is not needed here
+    loops={
+        "for (inv_name, inv_data) in inventories.items()": dict(invariant=[SEL.format(ys="_yielded")]),
+        "for (domain_obj_name, data) in inv_data.items()": dict(invariant=[
+            SEL.format(ys="_yielded"), "inv_name in inventories", "W(inv_name, invs)",
+        ]),
+        "for target in data": dict(invariant=[
+            SEL.format(ys="_yielded"), "inv_name in inventories", "W(inv_name, invs)",
+            "W(domain_name, domains) and W(obj_type, otypes)", "':' not in domain_name",
+            "domain_obj_name == domain_name + ':' + obj_type", "domain_obj_name in inventories[inv_name]",
+        ]),
+    },
+    properties=["C19"],
+)
